@@ -41,6 +41,7 @@ type C15Plan struct {
 	Tape      uint64     `json:"tape,omitempty"`
 	InVia     string     `json:"in_via"`  // file | stdin
 	OutVia    string     `json:"out_via"` // file (-o) | stdout (pipe) | stdout-file (stdout redirected to a file)
+	Dash      bool       `json:"dash,omitempty"` // spell stdin as the input name "-" and stdout as "-o -"
 	Damage    string     `json:"damage,omitempty"` // decrypt: header payload trunc
 	Fault     OutFault   `json:"fault"`
 	Sweep     bool       `json:"sweep,omitempty"` // fsize = every n in 0..len(output)
@@ -71,7 +72,7 @@ func (C15) Meta() core.Meta {
 		Real:        []string{"cmd/age and cmd/age-keygen binaries built from the working tree", "Linux kernel: files, pipes, RLIMIT_FSIZE, /dev/full"},
 		Stub:        []string{"argv, environment, input files, identity/recipient files, file descriptors and limits (the plan)"},
 		FaultKinds:  []string{"fault.fsize", "fault.nodir", "fault.isdir", "fault.devfull", "fault.closedpipe", "fault.damage_header", "fault.damage_payload", "fault.damage_trunc", "fault.no_matching_identity"},
-		Probes:      []string{"probe.exit0_complete", "probe.exit_nonzero", "probe.killed_by_signal", "probe.same_file_refused", "probe.pre_existing_output", "probe.keygen_mode_checked", "probe.empty_plaintext", "probe.multi_chunk", "probe.fsize_limit_below_output", "probe.fsize_limit_at_or_above_output", "probe.header_refusal_output_untouched", "probe.partial_output_is_prefix", "probe.stdin_input", "probe.several_identity_files"},
+		Probes:      []string{"probe.exit0_complete", "probe.exit_nonzero", "probe.killed_by_signal", "probe.same_file_refused", "probe.pre_existing_output", "probe.keygen_mode_checked", "probe.empty_plaintext", "probe.multi_chunk", "probe.fsize_limit_below_output", "probe.fsize_limit_at_or_above_output", "probe.header_refusal_output_untouched", "probe.partial_output_is_prefix", "probe.stdin_input", "probe.several_identity_files", "probe.dash_names"},
 	}
 }
 
@@ -109,6 +110,7 @@ func (C15) Generate(r *core.RNG, tier string, idx uint64) interface{} {
 	p.Keys = genCLIKeys(r, r.Range(1, 3))
 	p.RecipVia = []string{"-r", "-R", "-i"}[r.Intn(3)]
 	p.Umask = r.Pick(0, 0o22, 0o77)
+	p.Dash = r.Chance(1, 4)
 	p.NKeys = r.Range(1, 3)
 	if p.Op == "decrypt" {
 		p.IdKey = r.Intn(len(p.Keys))
@@ -633,8 +635,15 @@ func (e C15) one(p *C15Plan, fault OutFault, c *core.Ctx, ageBin, kgBin string, 
 		f, _ := os.OpenFile("/dev/full", os.O_WRONLY, 0)
 		stdoutFile = f
 	}
+	if p.Dash && (p.OutVia == "stdout" || p.OutVia == "stdout-file") && (p.Op == "encrypt" || p.Op == "decrypt") {
+		argv = append(argv, "-o", "-")
+		c.Stats.Inc("probe.dash_names")
+	}
 	if inputPath != "" {
 		argv = append(argv, inputPath)
+	} else if p.Dash && stdin != nil && p.Op != "keygen" {
+		argv = append(argv, "-")
+		c.Stats.Inc("probe.dash_names")
 	}
 	var sameBefore []byte
 	var sameIno uint64
